@@ -175,14 +175,21 @@ where
         });
     }
 
+    // Step-size options cannot be larger than the interval itself: an unclamped max_step lets
+    // the automatic initial step probe the right-hand side beyond xend, and a first_step beyond
+    // xend can never be reached by the output handler.
+    let span = (xend - x0).abs();
+    let max_step = options.max_step.map(|h| h.abs().min(span));
+    let first_step = options.first_step.map(|h| h.signum() * h.abs().min(span));
+
     // Prepare the default SolOut (wrapping user callback if provided)
     let n_states = y0.len();
-    let mut default_solout = DefaultSolOut::new(f, options.t_eval.clone(), options.dense_output, options.first_step, x0, n_states);
+    let mut default_solout = DefaultSolOut::new(f, options.t_eval.clone(), options.dense_output, first_step, x0, n_states);
 
     // Dispatch by method
     let result = match options.method {
         Method::RK4 => {
-            let h = options.first_step.unwrap_or_else(|| (xend - x0) / 100.0);
+            let h = first_step.unwrap_or_else(|| (xend - x0) / 100.0);
             let solver = RK4::builder()
                 .max_steps(options.max_steps.unwrap_or(usize::MAX))
                 .build();
@@ -197,8 +204,8 @@ where
         }
         Method::RK23 => {
             let solver = RK23::builder()
-                .maybe_max_step(options.max_step)
-                .maybe_first_step(options.first_step)
+                .maybe_max_step(max_step)
+                .maybe_first_step(first_step)
                 .max_steps(options.max_steps.unwrap_or(usize::MAX))
                 .build();
             solver.solve(
@@ -213,8 +220,8 @@ where
         }
         Method::DOPRI5 => {
             let solver = DOPRI5::builder()
-                .maybe_max_step(options.max_step)
-                .maybe_first_step(options.first_step)
+                .maybe_max_step(max_step)
+                .maybe_first_step(first_step)
                 .max_steps(options.max_steps.unwrap_or(usize::MAX))
                 .build();
             solver.solve(
@@ -229,8 +236,8 @@ where
         }
         Method::DOP853 => {
             let solver = DOP853::builder()
-                .maybe_max_step(options.max_step)
-                .maybe_first_step(options.first_step)
+                .maybe_max_step(max_step)
+                .maybe_first_step(first_step)
                 .max_steps(options.max_steps.unwrap_or(usize::MAX))
                 .build();
             solver.solve(
@@ -245,9 +252,9 @@ where
         }
         Method::RADAU => {
             let solver = RADAU::builder()
-                .maybe_max_step(options.max_step)
+                .maybe_max_step(max_step)
                 .maybe_min_step(options.min_step)
-                .maybe_first_step(options.first_step)
+                .maybe_first_step(first_step)
                 .max_steps(options.max_steps.unwrap_or(usize::MAX))
                 .maybe_nind1(options.nind1)
                 .maybe_nind2(options.nind2)
@@ -267,9 +274,9 @@ where
         }
         Method::BDF => {
             let solver = BDF::builder()
-                .maybe_max_step(options.max_step)
+                .maybe_max_step(max_step)
                 .maybe_min_step(options.min_step)
-                .maybe_first_step(options.first_step)
+                .maybe_first_step(first_step)
                 .max_steps(options.max_steps.unwrap_or(usize::MAX))
                 .jac_storage(options.jac_storage)
                 .build();
